@@ -44,7 +44,15 @@ func cfgGallina(orca string, locked bool) string {
 }
 
 // genTTL draws from the TTL classes of DESIGN.md §5.5
+// ttlBeyond enables the TTL class "absolute expiry further away than the clock value itself"
+// (only in the C09 runs): it triggers the known finding on the L1 back-fill.
+var ttlBeyond bool
+
 func genTTL(r *rig.Rand, now int64, w *rig.Writer) uint32 {
+	if ttlBeyond && r.Chance(4) {
+		w.Count("ttl=absolute-beyond-2now")
+		return uint32(2*now + 1000 + int64(r.Intn(100000)))
+	}
 	switch r.Intn(10) {
 	case 0, 1, 2:
 		w.Count("ttl=0")
@@ -323,6 +331,9 @@ func truncCase(c fsCase, n int) fsCase {
 func caseTags(c fsCase) []string {
 	var tags []string
 	for _, st := range c.Steps {
+		if int64(st.Req.TTL) > 2*st.Now {
+			tags = append(tags, "backfill-remaining-over-30d-still-future")
+		}
 		if c.Locked && c.Proto == "text" && st.Req.Kind == "get" && len(st.Req.Items) > 1 {
 			tags = append(tags, "locked-text-multiget-end-per-key")
 		}
@@ -334,6 +345,7 @@ func fullStack(e *env, prop string, mode int) {
 	w := rig.NewWriter(e.out, prop, e.tier, e.seed)
 	w.Shards = 16
 	r := rig.NewRand(e.seed + uint64(mode)*1000003)
+	ttlBeyond = mode == 9
 	var cases []fsCase
 	if rp := replayArg(e); rp != "" {
 		var c fsCase
